@@ -169,7 +169,7 @@ def plan_for(prop, tier, seed):
         p.families = [
             ("reorient-tiny", True, "dev", lambda ids, rng: G.f_reorient(ids, rng, G.tiny_model_list([(2, 3), (3, 2), (4, 3), (1, 1), (3, 3)], rng, 8 if q else 60), ifaces=("rec",))),
             ("reorient-xport", True, "dev", lambda ids, rng: G.f_reorient(ids, rng, G.tiny_model_list([(2, 3), (4, 3)], rng, 3 if q else 20), ifaces=("spi", "p8", "p16"), sample=0.5 if q else 1.0)),
-            ("reorient-real", True, "dev", lambda ids, rng: G.f_reorient(ids, rng, G.real_model_list(rng, None, n_windows=1 if q else 2, full=not q, maxside=12), ifaces=("rec",), sample=0.4 if q else 1.0)),
+            ("reorient-real", True, "dev", lambda ids, rng: G.f_reorient(ids, rng, G.real_model_list(rng, None, n_windows=1 if q else 3, full=False, maxside=12 if q else 40), ifaces=("rec",), sample=0.4 if q else 1.0)),
             ("reorient-nobatch", False, "dev", lambda ids, rng: G.f_reorient(ids, rng, G.tiny_model_list([(2, 3), (4, 3)], rng, 3 if q else 20), ifaces=("rec",))),
             # an external model that programs (and returns) its own colour order: the bits it set must survive set_orientation
             ("reorient-own-madctl", True, "dev", lambda ids, rng: G.f_reorient(ids, rng, [("tinybgr565_4x3", 4, 3, rng.sample(list(G.windows(4, 3)), 4 if q else 30))], ifaces=("rec", "spi"))),
